@@ -321,3 +321,29 @@ Proof.
   - eexists; eexists. split; [reflexivity|]. split; [exact (proj1 C01_example_wf)|]. split; [exact (proj1 C01_json_example)|].
     split; [rewrite (proj2 C01_example_wf); lia|exact E2].
 Qed.
+
+(* ================= exchanges that take more than one request =================
+   The service may ask again after a failure (TrySend).  The reading must be the reply that DECIDED the exchange: for EVERY
+   exchange — any number of earlier answers of any content — ending with the encoding of a well-formed message, decoding each
+   attempt into a value of its own gives the JSON form of that last message.  Tied at driver level on every run: scripted
+   exchanges whose first answer is a reply with each non-Success status (with description, FieldError, ParameterError and
+   sub-parameters), an ERROR_MESSAGE, a dropped connection or a truncated reply, followed by a success; a reading that is
+   returned is compared with the reply to the LAST request the service made. *)
+Theorem C01_exchange_reading_is_of_deciding_reply : forall t jt fuel tid earlier v bs,
+  wf_schema t = true -> jt_ok t jt = true -> sent t jt fuel v (tid, bs) ->
+  is_reading_of jt v (last_reading t jt fuel tid (earlier ++ [bs])).
+Proof. exact exchange_reading_is_of_deciding_reply. Qed.
+Print Assumptions C01_exchange_reading_is_of_deciding_reply.
+
+(* ... and handing the SAME reply value to the second attempt after a failure reply was decoded into it is false of the
+   faithful model: GetReaderConfigResponse with status 401, a description, a FieldError and one AntennaProperties, then a
+   successful reply — the reading keeps the description, the FieldError and the first answer's AntennaProperties.  "A value
+   is decoded into at most once per allocation" is the obligation; the decode-site scan marks parameters decoded into inside
+   a loop / retry closure (`repeated`) and the scripted exchanges above exercise them. *)
+Theorem C01_retry_into_same_reply_refuted :
+  exists f s bf bs, wfv llrp_table f /\ wfv llrp_table s /\ encode llrp_table f = Some bf /\ encode llrp_table s = Some bs /\
+    last_reading llrp_table llrp_jtable 3 12 [bf; bs] = to_json llrp_jtable s /\
+    exists j, last (readings_reused llrp_table llrp_jtable 3 12 (zero_of llrp_table 3 true 12) [bf; bs]) None = Some j /\
+              Some j <> to_json llrp_jtable s.
+Proof. exact retry_into_same_reply_refuted. Qed.
+Print Assumptions C01_retry_into_same_reply_refuted.
